@@ -462,12 +462,11 @@ Proof.
   rewrite (R_token _ _ _ H). destruct (token c) eqn:T1; try exact I.
   assert (H1 : R 0 (skip 1 c) (skip 1 c')) by asolve. rewrite (R_token _ _ _ H1).
   destruct (token (skip 1 c)) as [| | | | | |k|] eqn:T2; try exact I. destruct k; try exact I.
-  assert (H2 : R 0 (skip 2 c) (skip 2 c')).
-  { apply (R_skip2_0 c c' (TK KColon)); [exact H|rewrite T1; reflexivity|rewrite T1; reflexivity|exact T2|reflexivity|reflexivity|discriminate]. }
-  rewrite (SimGen.sat_constraints_inner (local_fuel c) (lf2 c c') (skip 2 c)),
-          (SimGen.sat_constraints_inner (local_fuel c') (lf2 c c') (skip 2 c'));
-    [|apply SimGen.lf_ok; apply SimGen.plen_skip|apply SimGen.lf2_r; apply SimGen.plen_skip
-     |apply SimGen.lf_ok; apply SimGen.plen_skip|apply SimGen.lf2_l; apply SimGen.plen_skip].
+  assert (H2 : R 0 (skip 1 (skip 1 c)) (skip 1 (skip 1 c'))) by asolve.
+  rewrite (SimGen.sat_constraints_inner (local_fuel c) (lf2 c c') (skip 1 (skip 1 c))),
+          (SimGen.sat_constraints_inner (local_fuel c') (lf2 c c') (skip 1 (skip 1 c')));
+    [|apply SimGen.lf_ok; apply SimGen.plen_skip2|apply SimGen.lf2_r; apply SimGen.plen_skip2
+     |apply SimGen.lf_ok; apply SimGen.plen_skip2|apply SimGen.lf2_l; apply SimGen.plen_skip2].
   apply (rbindB (VR 0)); [apply constraints_innerB; exact H2|]. xr_introB.
   destruct b; [apply IH; exact HR|psimsB].
 Qed.
